@@ -666,7 +666,7 @@ private theorem step_uni (cfg : Cfg) (sp : St) (c : Conn) (tag : Nat) (a : Arriv
     | unknown ty => simp [absKind, verdict, step, acceptArrival, acceptKind, accepts, Sim, h1, h2, h3, h4, h5]
 
 private theorem goaway_server (sp : St) (c : Conn) (id : Nat) (h5 : sp.lastGoaway = c.recvClosing) :
-    accepts (if goawayOk true sp id then Verdict.ok else .may [H3_ID_ERROR]) (processGoaway c id).2 ∧
+    accepts (if goawayOk true sp id then Verdict.ok else .must [H3_ID_ERROR]) (processGoaway c id).2 ∧
     ((processGoaway c id).2 = none → (processGoaway c id).1 = { c with recvClosing := some id }) := by
   unfold processGoaway goawayOk
   rw [h5]
@@ -680,7 +680,7 @@ private theorem goaway_server (sp : St) (c : Conn) (id : Nat) (h5 : sp.lastGoawa
       simp [hlt, this, accepts]
 
 private theorem goaway_client (sp : St) (c : Conn) (id : Nat) (h5 : sp.lastGoaway = c.recvClosing) :
-    accepts (if goawayOk false sp id then Verdict.ok else .may [H3_ID_ERROR]) (clientHandle c (.goaway id)).2 ∧
+    accepts (if goawayOk false sp id then Verdict.ok else .must [H3_ID_ERROR]) (clientHandle c (.goaway id)).2 ∧
     ((clientHandle c (.goaway id)).2 = none → (clientHandle c (.goaway id)).1 = { c with recvClosing := some id }) := by
   unfold clientHandle processGoaway goawayOk
   rw [h5]
@@ -894,6 +894,47 @@ theorem into_stream (cfg : Cfg) (s : UniAccept.St) (ty : Nat) (hty : s.ty = some
 theorem unknown_stream (cfg : Cfg) (c : Conn) (ty : Nat) :
     acceptArrival cfg c (.kind (.unknown ty)) = { conn := c, stop := some 0x0103 } ∧
     acceptArrival cfg c .dropped = { conn := c } := ⟨rfl, rfl⟩
+
+/-- the same against the oracle: a resolved stream whose type the RFC table calls unknown -/
+theorem unknown_stream_spec (cfg : Cfg) (c : Conn) (sp : St) (s : UniAccept.St) (ty : Nat)
+    (hty : s.ty = some ty) (hid : hasId ty = true → s.id.isSome = true)
+    (hunk : streamTy cfg.wt ty = .unknown) :
+    (verdict (isServer cfg) sp (.stream (streamTy cfg.wt ty))).1 = .ok ∧
+    (verdict (isServer cfg) sp .closedEarly).1 = .ok ∧
+    (∃ k, UniAccept.intoStream s = some k ∧
+      (acceptArrival cfg c (.kind k)).err = none ∧ (acceptArrival cfg c (.kind k)).conn = c ∧
+      ((acceptArrival cfg c (.kind k)).stop = none ∨
+       (acceptArrival cfg c (.kind k)).stop = some H3_STREAM_CREATION_ERROR)) ∧
+    (acceptArrival cfg c .dropped).err = none ∧ (acceptArrival cfg c .dropped).conn = c := by
+  refine ⟨by rw [hunk]; rfl, rfl, ?_, rfl, rfl⟩
+  obtain ⟨k, hk, habs⟩ := into_stream cfg s ty hty hid
+  rw [hunk] at habs
+  refine ⟨k, hk, ?_⟩
+  cases k with
+  | control => simp [absKind] at habs
+  | push => simp [absKind] at habs
+  | encoder => simp [absKind] at habs
+  | decoder => simp [absKind] at habs
+  | wtUni sid =>
+    by_cases hw : cfg.wt = true
+    · simp [absKind, hw] at habs
+    · simp [acceptArrival, acceptKind, hw]
+  | unknown t => simp [acceptArrival, acceptKind, H3_STREAM_CREATION_ERROR, CODE_H3_STREAM_CREATION_ERROR]
+
+/-- the RFC-by-the-letter table differs from the property's table only in the rules of server push -/
+theorem rfc_table_differs (server : Bool) (sp : St) (e : Ev) :
+    verdictRfc server sp e = verdict server sp e ∨
+    e = .stream .push ∨ (∃ id, e = .ctl (.cancelPush id)) ∨ (∃ id, e = .ctl (.maxPushId id) ∧ server = true) := by
+  cases e with
+  | stream t => cases t <;> simp [verdictRfc]
+  | closedEarly => simp [verdictRfc]
+  | ctl ce =>
+    by_cases h : (sp.control && sp.settings) = true
+    · have hc : sp.control = true := by simp at h; exact h.1
+      have hs : sp.settings = true := by simp at h; exact h.2
+      cases ce <;> simp [verdictRfc, verdict, laterFrameRfc, hc, hs]
+      cases server <;> simp
+    · simp [verdictRfc, h]
 
 end machine
 
